@@ -17,8 +17,8 @@ claims = {
    note="State merging assumes no hidden mutable state beyond the dumped tree; conflict rule of the model stated in evidence. Bounds: two pools (shared prefixes/hostnames: 10 patterns x 2-3 methods, <=2-3 live routes expanded; siblings: 7 patterns, <=5-6 live routes).",
    technique="explicit-state breadth-first search over the implementation's transition function with a reference-model oracle on every transition"),
  "C03": dict(level="model_checking", design="4/C03",
-   text="Sequential: every operation sequence up to a length from every seed state, in four modes (direct, inside one committed/aborted write transaction, issued from inside a request handler); all four kinds of snapshot (Router.Iter, read-only Txn, Txn.Snapshot, Txn.Iter, the request being served) are taken and re-read after every later operation and ending, and the final state is compared with the snapshot-free twin. Eviction: transactions touching 5000 inner nodes (copy cache 4096). Concurrent: all interleavings up to a preemption bound of a reader re-reading a snapshot against committing writers.",
-   note=SCHED + " Observation equality is byte equality of a rendering of every read API. Bounds: sequences <=2 (quick) / 3 (thorough) over 19 operations, 2 pattern pools, seeds <=3 routes; preemption bound 2/3.",
+   text="Sequential: every operation sequence up to a length from every seed state, in five modes (direct, one committed managed transaction per operation, inside one committed/aborted write transaction, issued from inside a request handler); all four kinds of snapshot (Router.Iter, read-only Txn, Txn.Snapshot, Txn.Iter, the request being served) are taken and re-read after every later operation and ending, and the final state is compared with the snapshot-free twin. Eviction: transactions touching 5000 inner nodes (copy cache 4096). Concurrent: all interleavings up to a preemption bound of a reader re-reading a snapshot against committing writers.",
+   note=SCHED + " Observation equality is byte equality of a rendering of every read API. Bounds: sequences <=2 (quick) / 3 (thorough) over 19 operations, 4 pattern pools, seeds <=3 routes; preemption bound 2/3.",
    technique="explicit enumeration of histories with snapshots at every position on the implementation + preemption-bounded schedule exploration; oracle = observation equality"),
  "C04": dict(level="model_checking", design="4/C04",
    text="Sequential fault enumeration: every transaction body up to a length over a 21-operation alphabet (incl. Snapshot/Iter) from every seed state, ended in 7 ways (commit, abort, commit-then-abort, abort-then-commit, Updates returning nil / an error / panicking); router and transaction observed after every step (isolation, read-your-writes), all-or-nothing after the ending, lock released, settled transaction refuses use, read-only transaction refuses writes. Concurrent: all interleavings up to a preemption bound of a 3-operation transaction (5 endings) against two reader threads with a linearizability oracle in which a transaction is one atomic operation.",
@@ -54,7 +54,7 @@ claims = {
    technique="bounded exhaustive enumeration of input strings against a reference recogniser"),
  "C12": dict(level="model_checking", design="4/C12",
    text="Every sequence up to a length of requests from a 12-kind alphabet, on routers with and without a hostname route, with optional tree replacement between requests, x EVERY answer of the context pool at every Pool.Get (data choice points of the controlled scheduler: any pooled context or a fresh one); every Context getter is checked inside every handler against the request's unique token and stashed clones are re-read after every later request; plus two-thread schedules.",
-   note=SCHED + " sync.Pool semantics (any previously Put object or a new one) is made explicit by the shim and enumerated. Bounds: sequences <=2 (all kinds) + <=3 (5 kinds) quick, <=3 all kinds thorough; preemption bound 2/3.",
+   note=SCHED + " sync.Pool semantics (any previously Put object or a new one) is made explicit by the shim and enumerated. Bounds: sequences <=2 (all 21 kinds) + <=3 (11 kinds) quick, <=3 all kinds thorough; preemption bound 2/3.",
    technique="stateless exploration of environment (pool) choices and thread interleavings on the implementation with a per-request token oracle"),
  "C13": dict(level="model_checking", design="4/C13",
    text="Configurations: every list of global middleware up to a length over scope masks (with/without DefaultOptions) x route-specific lists x Update, observed on all five handler kinds, Route.Handle and Route.HandleMiddleware for two routes. Schedules: all interleavings (unbounded) of 2-3 threads creating routes with route-specific middleware, scheduling points at the tag-guarded verifPoints inside NewRoute.",
@@ -77,7 +77,7 @@ claims = {
    note="Reference CleanPath written from the statement.",
    technique="bounded exhaustive enumeration of input strings against a reference implementation"),
  "C18": dict(level="exploration", design="4/C18",
-   text="Every header list up to 3 (quick) / 4 (thorough) entries over a 16-token alphabet, as X-Forwarded-For and Forwarded (5 shapes), over one or two lines, x 38 resolver configurations, compared with reference strategies over net/netip; every selecting list re-run behind 17 attacker prefixes (same line and extra line); SingleIPHeader, RemoteAddr, Chain; default-range audit exhaustive by elementary intervals against the IANA special-purpose registries.",
+   text="Every header list up to 3 (quick) / 4 (thorough) entries over a 16-token alphabet, as X-Forwarded-For and Forwarded (12 element shapes), over one or two lines, x 63 resolver configurations (counts and limits up to MaxUint), compared with reference strategies over net/netip; every selecting list re-run behind 17 attacker prefixes (same line and extra line); SingleIPHeader, RemoteAddr, Chain; default-range audit exhaustive by elementary intervals against the IANA special-purpose registries.",
    note="Built-in tables read through a tag-guarded hook for exact interval boundaries; anycast exceptions inside reserved blocks not counted against the tables.",
    technique="bounded exhaustive enumeration of header lists against reference strategies + exact interval analysis of CIDR tables"),
  "C19": dict(level="exploration", design="4/C19",
